@@ -417,8 +417,12 @@ theorem wrapVal_mem (b : Basis K) (hlt : b.start < b.stop) (x0 : K) :
 theorem insertKnot_wrap (b : Basis K) (hper : 0 ≤ b.periodic) (hlt : b.start < b.stop) (x0 : K) :
     b.insertKnot x0 = b.insertKnot (wrapVal b x0) := by
   obtain ⟨h1, h2, _⟩ := wrapVal_mem b hlt x0
+  have hT : ¬ b.stop - b.start = 0 := ne_of_gt (sub_pos.2 hlt)
   have e1 : wrapX b x0 = .ok (wrapVal b x0) := by
     unfold wrapX wrapVal; rw [if_pos hper]
+    by_cases ho : x0 < b.start ∨ x0 > b.stop
+    · rw [if_pos ho, if_pos ho, if_neg hT]
+    · rw [if_neg ho, if_neg ho]
   have e2 : wrapX b (wrapVal b x0) = .ok (wrapVal b x0) := by
     have : ¬ (wrapVal b x0 < b.start ∨ wrapVal b x0 > b.stop) :=
       not_or.2 ⟨not_lt.2 h1, not_lt.2 h2⟩
